@@ -7,6 +7,7 @@ use std::panic::{catch_unwind, AssertUnwindSafe};
 
 mod util;
 mod angles;
+mod curve;
 
 pub struct State {
     pub slots: std::collections::HashMap<String, Box<dyn std::any::Any>>,
@@ -22,6 +23,7 @@ fn dispatch(rec: &Value, st: &mut State) -> Value {
     let m = rec["m"].as_str().unwrap_or("");
     match m {
         "angles" => angles::exec(rec, st),
+        "curve" => curve::exec(rec, st),
         _ => json!({"unknown_module": true}),
     }
 }
